@@ -237,6 +237,119 @@ def table_strategy(draw, tier):
     return case
 
 
+# ----------------------------------------------------------------------------- long rings, chains and ladders
+LARGE_N = [62, 63, 64, 100, 120, 127, 128, 255, 256, 257, 384, 1000, 2500]
+LARGE_SHAPES = ["ring-forward", "ring-backward", "chain-leaf-first", "chain-root-first", "two-rings", "ring-with-tail", "two-chains",
+                "random-tree", "random-tree-plus-back-edge"]
+
+
+@st.composite
+def large_strategy(draw, tier):
+    return {"n": draw(st.sampled_from(LARGE_N)), "shape": draw(st.sampled_from(LARGE_SHAPES)), "seed": draw(st.integers(0, 2 ** 31 - 1)),
+            "rows": draw(st.sampled_from(["id-order", "id-order", "reversed", "shuffled"]))}
+
+
+def _large_table(case):
+    n, shape = case["n"], case["shape"]
+    rs = np.random.RandomState(case["seed"])
+    if shape == "ring-forward":
+        p = [(i + 1) % n for i in range(n)]
+    elif shape == "ring-backward":
+        p = [(i - 1) % n for i in range(n)]
+    elif shape == "chain-leaf-first":
+        p = [i + 1 for i in range(n - 1)] + [-1]
+    elif shape == "chain-root-first":
+        p = [-1] + list(range(n - 1))
+    elif shape == "two-rings":
+        m = n // 2
+        p = [(i + 1) % m for i in range(m)] + [m + (i + 1) % (n - m) for i in range(n - m)]
+    elif shape == "ring-with-tail":
+        m = max(3, n // 3)
+        p = [(i + 1) % m for i in range(m)] + [i - 1 for i in range(m, n)]
+    elif shape == "two-chains":
+        m = n // 2
+        p = [i + 1 for i in range(m - 1)] + [-1] + [-1] + list(range(m, n - 1))
+    else:
+        perm = rs.permutation(n)
+        p = [-1] * n
+        for k in range(1, n):
+            p[int(perm[k])] = int(perm[int(rs.randint(max(0, k - 3), k))])  # deep random tree over a random labelling
+        if shape == "random-tree-plus-back-edge":
+            p[int(perm[0])] = int(perm[int(rs.randint(n // 2, n))])
+    rows = list(range(n))
+    if case["rows"] == "reversed":
+        rows.reverse()
+    elif case["rows"] == "shuffled":
+        rows = [int(v) for v in rs.permutation(n)]
+    return p, rows
+
+
+def _ref_fast(p):
+    """(connected, cyclic, sorted, bif_all, bif_nonroot) in linear time."""
+    n = len(p)
+    up = list(range(n))
+
+    def find(a):
+        while up[a] != a:
+            up[a] = up[up[a]]
+            a = up[a]
+        return a
+
+    for i, q in enumerate(p):
+        if q >= 0:
+            up[find(i)] = find(q)
+    connected = len({find(i) for i in range(n)}) == 1
+    state = [0] * n  # 0 new, 1 on the current walk, 2 done
+    cyclic = False
+    for i in range(n):
+        walk, j = [], i
+        while j >= 0 and state[j] == 0:
+            state[j] = 1
+            walk.append(j)
+            j = p[j]
+        if j >= 0 and state[j] == 1:
+            cyclic = True
+        for v in walk:
+            state[v] = 2
+    cnt = [0] * n
+    for q in p:
+        if q >= 0:
+            cnt[q] += 1
+    return (connected, cyclic, all(q < i for i, q in enumerate(p) if q >= 0), all(c <= 2 for c in cnt),
+            all(c <= 2 for i, c in enumerate(cnt) if p[i] != -1))
+
+
+def run_large(case, ctx):
+    import pandas as pd
+
+    from swcgeom.core.swc_utils import get_dsu, has_cyclic, is_bifurcate, is_single_root, is_sorted
+
+    p, rows = _large_table(case)
+    n = len(p)
+    conn, cyc, srt, ba, bn = _ref_fast(p)
+    ctx.cls("large:" + case["shape"], "rows:" + case["rows"], "cyclic" if cyc else "acyclic", "connected" if conn else "disconnected")
+    if n >= 1000:
+        ctx.cls("n>=1000")
+    ctx.nontrivial(True)
+    ids = np.array(rows, dtype=np.int64)
+    pids = np.array([p[i] for i in rows], dtype=np.int64)
+    df = pd.DataFrame({"id": ids, "pid": pids})
+    info = lambda: f"{case['shape']} of {n} rows, rows {case['rows']}"  # noqa
+    got = ctx.timed("is_single_root", limit=20.0, fn=lambda: ctx.lib("is_single_root", is_single_root, df))
+    ctx.check(bool(got) == conn, "is_single_root/all-nodes-connected", lambda: f"{info()}: got {got}, expected {conn}")
+    if not cyc:
+        lab = ctx.timed("get_dsu", limit=20.0, fn=lambda: ctx.lib("get_dsu", get_dsu, df))
+        ctx.check(len(set(int(v) for v in lab)) == sum(1 for q in p if q == -1), "get_dsu/labels-are-the-components",
+                  lambda: f"{info()}: {len(set(int(v) for v in lab))} labels")
+    got = ctx.timed("has_cyclic", limit=20.0, fn=lambda: ctx.lib("has_cyclic", has_cyclic, (ids, pids)))
+    ctx.check(bool(got) == cyc, "has_cyclic/some-node-reaches-itself", lambda: f"{info()}: got {got}, expected {cyc}")
+    got = ctx.lib("is_bifurcate", is_bifurcate, (ids, pids), exclude_root=False)
+    ctx.check(bool(got) == ba, "is_bifurcate/no-node-has-more-than-two-children", lambda: f"{info()}: got {got}, expected {ba}")
+    if case["rows"] == "id-order":
+        got = ctx.timed("is_sorted", limit=20.0, fn=lambda: ctx.lib("is_sorted", is_sorted, (ids, pids)))
+        ctx.check(bool(got) == srt, "is_sorted/parents-precede-children", lambda: f"{info()}: got {got}, expected {srt}")
+
+
 def all_tables(tier):
     top = 5 if tier == "quick" else 6
     for n in range(1, top + 1):
@@ -277,7 +390,8 @@ def forest_strategy(draw, tier):
     ty = [draw(st.integers(0, 7)) for _ in range(n)]
     return {"p": p, "base": base, "xyz": xyz, "r": r, "type": ty,
             "fix": draw(st.sampled_from(["off", "somas", "nearest"])),
-            "via": draw(st.sampled_from(["read_swc", "read_swc", "dataframe"]))}
+            "via": draw(st.sampled_from(["read_swc", "read_swc", "dataframe"])),
+            "src": draw(st.sampled_from(["text", "path"])), "reads": draw(st.sampled_from([1, 1, 3]))}
 
 
 def run_forest(case, ctx):
@@ -307,9 +421,31 @@ def run_forest(case, ctx):
         txt = "".join(f"{ids0[i]} {ty[i]} {xyz[i][0]} {xyz[i][1]} {xyz[i][2]} {r[i]} {pids0[i]}\n" for i in range(n))
         with warnings.catch_warnings(record=True) as w:
             warnings.simplefilter("always")
-            df, _ = ctx.lib(f"forest/read_swc[fix_roots={fix}]", read_swc, io.StringIO(txt),
+            if case.get("src") == "path":
+                import os
+
+                fpath = os.path.join(ctx.tmpdir, "forest.swc")
+                with open(fpath, "w", encoding="utf-8") as fh:
+                    fh.write(txt)
+                ctx.cls("forest-read-from-a-file")
+                mk = lambda: fpath  # noqa
+            else:
+                fpath = None
+                mk = lambda: io.StringIO(txt)  # noqa
+            df, _ = ctx.lib(f"forest/read_swc[fix_roots={fix}]", read_swc, mk(),
                             fix_roots=False if fix == "off" else fix, reset_index=first_row_root)
         msgs = [str(x.message) for x in w]
+        later_msgs = []
+        for _rep in range(case.get("reads", 1) - 1):
+            # the same source read again: every read is a read of a file with several roots
+            with warnings.catch_warnings(record=True) as w2:
+                warnings.simplefilter("always")
+                df2, _ = ctx.lib(f"forest/read_swc[fix_roots={fix}]", read_swc, mk(),
+                                 fix_roots=False if fix == "off" else fix, reset_index=first_row_root)
+            later_msgs.append([str(x.message) for x in w2])
+            ctx.check(df2.equals(df), "forest/read-again-gives-the-same-table", "")
+        if later_msgs:
+            ctx.cls("same-forest-read-again")
         shift = ids0[0] if first_row_root else 0
     else:
         src = pd.DataFrame({"id": np.array(ids0, dtype=np.int32), "type": np.array(ty, dtype=np.int32),
@@ -367,11 +503,18 @@ def run_forest(case, ctx):
             txt1 = "".join(f"{ids0[i]} {ty[i]} {xyz[i][0]} {xyz[i][1]} {xyz[i][2]} {r[i]} {pids1[i]}\n" for i in range(n))
             with warnings.catch_warnings(record=True) as w1:
                 warnings.simplefilter("always")
-                ctx.lib("forest/read_swc[single-rooted control]", read_swc, io.StringIO(txt1), reset_index=first_row_root)
+                if fpath is not None:
+                    with open(fpath, "w", encoding="utf-8") as fh:  # the control under the very same file name
+                        fh.write(txt1)
+                ctx.lib("forest/read_swc[single-rooted control]", read_swc, fpath if fpath is not None else io.StringIO(txt1),
+                        reset_index=first_row_root)
             norm = lambda m: re.sub(r"0x[0-9a-fA-F]+", "0x", m)  # noqa
             control = {norm(str(x.message)) for x in w1}
             ctx.check(any(norm(m) not in control for m in msgs), "forest/several-roots-warning",
                       lambda: f"warnings: {msgs}; the single-rooted control draws: {sorted(control)}")
+            for k, lm in enumerate(later_msgs):
+                ctx.check(any(norm(m) not in control for m in lm), "forest/several-roots-warning-on-every-read",
+                          lambda: f"read {k + 2} of the same source drew {lm}; the single-rooted control draws: {sorted(control)}")
     else:
         ctx.check(pid[roots[0]] == -1, "forest/first-root-kept", lambda: f"first root row {roots[0]} has parent {pid[roots[0]]}")
         ctx.check(sum(1 for q in pid if q == -1) == 1, "forest/exactly-one-root",
@@ -396,7 +539,10 @@ SUBCHECKS = [
         required={"cyclic": 100, "cycle>=2": 50, "self-loop": 30, "forest": 100, "tree": 50,
                   "rows-shuffled": 200, "not-bif": 50, "bif-except-root": 10}),
     Enumerate("tables_all", all_tables, run_table, shards_quick=4, shards_thorough=16),
+    Sub("large_tables", large_strategy, run_large, quick=240, thorough=2400, shards_quick=4,
+        required={"large:ring-forward": 8, "large:ring-backward": 8, "large:chain-leaf-first": 8, "n>=1000": 10, "rows:shuffled": 30}),
     Sub("forest", forest_strategy, run_forest, quick=3000, thorough=30000, shards_quick=4,
         required={"fix:off": 100, "fix:somas": 100, "fix:nearest": 100, "base:1": 100, "base:k": 100,
-                  "first-root-later": 100, "root-in-row-0": 100, "via:dataframe": 100}),
+                  "first-root-later": 100, "root-in-row-0": 100, "via:dataframe": 100,
+                  "forest-read-from-a-file": 300, "same-forest-read-again": 200}),
 ]
